@@ -27,6 +27,8 @@ type Obligation struct {
 	Output  string   `json:"output,omitempty"`
 	Goal    string   `json:"goal,omitempty"`
 	Cover   bool     `json:"cover,omitempty"` // must be SAT (vacuity guard)
+	NegGoal string   `json:"-"`
+	Parts   int      `json:"parts,omitempty"` // >0: discharged as that many goal conjuncts
 	Trivial bool     `json:"-"`
 }
 
@@ -1065,6 +1067,7 @@ func (e *Engine) newObligation(st *State, kind, clause string, goal Term, pos to
 		}
 	}
 	ob.Trail = append([]string{}, st.trail...)
+	ob.NegGoal = Not(goal).S
 	ob.Query = e.buildQuery(st.pc, Not(goal))
 	return ob
 }
